@@ -28,7 +28,9 @@ RULE = ("a case is a tree of dataclasses: every class has 0-2 int/str leaf field
         "clash trees under EXPLICIT/NONE are left to the correspondence ops (oracle:*unjudged*). A model answer "
         "`unmodelled` on a well-shaped case counts as a mismatch. A second stream drives Union[A, B] sub-command "
         "fields end-to-end (real code + oracle only; default and dash-variant settings on underscore-free names); a "
-        "third compares the outcome-level argparse model with the real argparse on random tables; a fourth (sg.mixed, "
+        "third compares the outcome-level argparse model with the real argparse on random tables; a stream of modelled trees puts ONE leaf name at three depths "
+        "among the selected groups with the deep branch declared first and overrides each clashing leaf through the "
+        "option AUTO resolution gives it (stated in the case, judged by the strict expectation); a fourth (sg.mixed, "
         "real code + oracle only) builds a parent with subgroup fields AND a Union sub-command field whose dataclasses "
         "have subgroup fields of their own (distinct names, default settings; 30% parsed into a namespace that already "
         "carries a `subgroups` report): value, and namespace.subgroups = the chosen key of every subgroup of the parent "
@@ -535,6 +537,12 @@ def naming_for(c: dict):
     cfg = c["cfg"]
     if cfg["dash"] != "UNDERSCORE":
         return None
+    if c.get("opt_map") and cfg["gen"] == "FLAT":
+        # the deep-first-clash shape: the case states which option AUTO resolution gives each clashing leaf (least
+        # nested keeps the bare name, the deeper ones get the name of the field that holds them) — independent of the
+        # parser under test; a wrong statement would show up as a failure on the clean tree
+        om = c["opt_map"]
+        return lambda d, n: om.get(d, "--" + n)
     if cfg["gen"] == "FLAT":
         return lambda d, n: "--" + n
     if cfg["gen"] == "NESTED":
@@ -1383,7 +1391,94 @@ def mixed_case(rng):
     return {"op": "sg.mixed", "case": c, "model": False}
 
 
+def deep_clash_case(rng):
+    """One leaf name `x` at three depths among the SELECTED groups, the deep branch declared first (70%):
+       root { a: {deep: {enc: {k: {att: {k: {x, ..}}, x, ..}}, ..}, flat: {..}},   b: {k: {x, ..}} }
+    AUTO resolution: `--x` addresses b's x (least nested), `--<enc>.x` the one two levels down, `--<att>.x` the deepest.
+    Every clashing leaf is overridden through the option stated in `opt_map`."""
+    names = Names(rng, False, prefix_free=True)
+    x = names.fresh(False)
+    a_name, b_name, enc_name, att_name = names.fresh(True), names.fresh(True), names.fresh(True), names.fresh(True)
+
+    def xleaf():
+        return {"k": "leaf", "name": x, "ty": "int", "default": rand_scalar(rng, "int")}
+
+    def other():
+        ty = rng.choice(["int", "str"])
+        return {"k": "leaf", "name": names.fresh(False), "ty": ty, "default": rand_scalar(rng, ty)}
+
+    def entry(key, cls, kinds):
+        kind = rng.choice(kinds)
+        leaves = [f for f in cls["fields"] if f["k"] == "leaf"]
+        kw = []
+        if kind == "partial":
+            kw = [[f["name"], rand_scalar(rng, f["ty"])] for f in leaves if rng.random() < 0.7]
+        elif kind == "inst":
+            cls["frozen"] = True
+            kw = [[f["name"], rand_scalar(rng, f["ty"]) if rng.random() < 0.6 else f["default"]] for f in leaves]
+        return {"key": key, "kind": kind, "kw": kw, "cls": cls}
+
+    def sub(name, alts, required=False):
+        return {"k": "sub", "name": name, "default": None if required else rng.choice(alts)["key"], "alts": alts}
+
+    def shuffled(fs):
+        rng.shuffle(fs)
+        return fs
+    att_alts = [entry(k, {"name": names.cls(), "fields": shuffled([xleaf(), other()])}, ["type", "partial", "inst"])
+                for k in rng.sample(KEYS, rng.choice([1, 2]))]
+    enc_alts = []
+    for k in rng.sample(KEYS, rng.choice([1, 2])):
+        inner = copy.deepcopy(att_alts)
+        enc_alts.append(entry(k, {"name": names.cls(), "fields": shuffled([sub(att_name, inner), xleaf(), other()])},
+                              ["type", "partial"]))
+    deep = {"key": "deep", "kind": "type", "kw": [],
+            "cls": {"name": names.cls(), "fields": shuffled([sub(enc_name, enc_alts), other()])}}
+    a_alts = [deep]
+    if rng.random() < 0.6:
+        a_alts.append({"key": "flat", "kind": "type", "kw": [], "cls": {"name": names.cls(), "fields": [other()]}})
+    a_field = {"k": "sub", "name": a_name, "alts": a_alts,
+               "default": "deep" if rng.random() < 0.8 or len(a_alts) == 1 else "flat"}
+    b_alts = [entry(k, {"name": names.cls(), "fields": shuffled([xleaf(), other()])}, ["type", "partial", "inst"])
+              for k in rng.sample(KEYS, rng.choice([1, 2]))]
+    b_field = sub(b_name, b_alts)
+    deep_first = rng.random() < 0.7
+    fields = [a_field, b_field] if deep_first else [b_field, a_field]
+    if rng.random() < 0.5:
+        fields.insert(rng.randint(0, 2), other())
+    root = {"name": "Root", "fields": fields}
+    dest = "config"
+    opt_map = {f"{dest}.{b_name}.{x}": "--" + x,
+               f"{dest}.{a_name}.{enc_name}.{x}": f"--{enc_name}.{x}",
+               f"{dest}.{a_name}.{enc_name}.{att_name}.{x}": f"--{att_name}.{x}"}
+    c = {"cfg": dict(DEFAULT_CFG), "mode": "AUTO", "dest": dest, "root": root, "opt_map": opt_map}
+    naming = naming_for(c)
+    for _ in range(10):
+        pairs, foreign, _ = selection(rng, root, dest, naming)
+        if sum(1 for p in pairs if p[0] in opt_map.values()) >= 2:
+            break
+    for pr in pairs:
+        if pr[1].startswith("-"):
+            pr[1] = "7" if pr[1][1:].isdigit() else pr[1][1:]
+    rng.shuffle(pairs)
+    tag = "deep-first" if deep_first else "shallow-first"
+    r = rng.random()
+    if r < 0.1 and foreign:
+        o, g = rng.choice(foreign)
+        v = ("5" if g["ty"] == "int" else "w") if g["k"] in ("leaf", "hidden") else g["alts"][0]["key"]
+        pairs.insert(rng.randint(0, len(pairs)), [o, v])
+        tag += "+foreign"
+    c["argv"] = pairs
+    c["forms"] = [rng.choice(["sp", "sp", "eq"]) for _ in pairs]
+    c["gtag"] = "shared-leaf-3-depths:" + tag
+    return c
+
+
 def gen(rng, tier):
+    for i in range(120 if tier == "quick" else 600):
+        c = deep_clash_case(rng)
+        yield {"op": "sg.e2e", "case": c}
+        if i % 3 == 0:
+            yield {"op": "sg.rounds", "case": c}
     for _ in range(150 if tier == "quick" else 900):
         yield mixed_case(rng)
     n_tree = 1200 if tier == "quick" else 8000
@@ -1479,6 +1574,9 @@ def shrink(case):
         if d.get("forms"):
             del d["forms"][i:i + 1]
         yield {"op": case["op"], "case": d}
+
+    if c.get("opt_map"):
+        return          # the stated options belong to this very tree: only the command line is shrunk
 
     def paths(cls, pre):
         for i, f in enumerate(cls["fields"]):
